@@ -296,7 +296,7 @@ def _expr_trees(leaves):
     return out
 
 
-def expression_sweep_requests() -> list[Request]:
+def expression_sweep_requests(four_leaves: bool = True) -> list[Request]:
     """Systematic element-wise expression sweep: every expression tree over <= 3 sparse vector operands
     (and the 135 trees over 4) with operators + - *, plus variants in which one leaf is the literal 2 or
     a contraction M(i,j) * x(j); all operands and the output compressed.  One-dimensional kernels are
@@ -332,8 +332,9 @@ def expression_sweep_requests() -> list[Request]:
             lv[pos] = "M(i,j) * x(j)"
             for n_e, e in enumerate(_expr_trees(lv)):
                 add(e, {"M": "ss" if n_e % 2 else "ds", "x": "s"})
-    for e in _expr_trees(names):
-        add(e)
+    if four_leaves:
+        for e in _expr_trees(names):
+            add(e)
     return out
 
 
